@@ -51,7 +51,17 @@ GluedToField(s, e) == FieldTrailingSpace /\ e + 1 <= Len(s) /\ s[e + 1] = "F"
 \*      k = [name (letters after the backslash), cps (its code points), braced (the command text
 \*      includes its own brace group), arg (code points inside that group)]
 \* "T" = \totalpage   "F" = \pagefield
+\* a command that stays verbatim in the file: following letters belong to its name, a directly
+\* following group is read as a group, a digit run as its parameter
+VerbatimCmd(s, i, name0) ==
+  LET e == RunEnd(s, i + 1)
+      name == name0 \o RunName(s, i + 1, e)
+  IN IF e + 1 <= Len(s) /\ s[e + 1] \in Groups THEN << <<Kw(name, -1)>> \o GroupEv(s[e + 1]), e + 2 >> ELSE Verbatim(s, name, e + 1)
+\* a context record may also describe a command that is NOT in the table (a supported name in another letter case):
+\* it stays verbatim in both modes, exactly like any other unknown command
+KUnknown(k) == "unknown" \in DOMAIN k /\ k.unknown
 KCommand(s, i, conv, k) ==
+  IF KUnknown(k) THEN (IF k.braced THEN << <<Kw(k.name, -1)>> \o Chars(k.arg), i + 1 >> ELSE VerbatimCmd(s, i, k.name)) ELSE
   LET e == RunEnd(s, i + 1)                       \* letters glued to the command name
       name == k.name \o RunName(s, i + 1, e)
       braced == e + 1 <= Len(s) /\ s[e + 1] \in Groups
@@ -63,12 +73,6 @@ KCommand(s, i, conv, k) ==
      ELSE IF e >= i + 1 /\ ~braced THEN Verbatim(s, name, e + 1)                     \* longest letter run: another, unknown, name
      ELSE IF braced THEN << <<Kw(name, -1)>> \o grp, e + 2 >>                        \* looked up together with the group: unknown
      ELSE << Chars(k.cps), i + 1 >>
-\* a command that stays verbatim in the file: following letters belong to its name, a directly
-\* following group is read as a group, a digit run as its parameter
-VerbatimCmd(s, i, name0) ==
-  LET e == RunEnd(s, i + 1)
-      name == name0 \o RunName(s, i + 1, e)
-  IN IF e + 1 <= Len(s) /\ s[e + 1] \in Groups THEN << <<Kw(name, -1)>> \o GroupEv(s[e + 1]), e + 2 >> ELSE Verbatim(s, name, e + 1)
 Command(s, i, conv) ==
   LET e == RunEnd(s, i + 1)
       name == RunName(s, i + 1, e)
